@@ -108,3 +108,21 @@ package pebble
 //@   loop 0 invariant old(fs.vHas[dir]) ==> fs.vHas[dir]
 //@   loop 0 invariant forall q string :: (fs.vHas[q] ==> old(fs.vHas[q])) && (fs.dHas[q] ==> old(fs.dHas[q]))
 
+
+// ---------------------------------------------------------------- the store's options (C01, C03, C04, C12)
+
+// The sorted-map model of the store presumes: bytewise comparison and EQUALITY of keys (the library's
+// default comparer), the whole key as its own prefix (SeekPrefixGE is an exact-key seek), and no
+// write-ahead log (index and data become durable together, by flush).
+//@ import cpebble "github.com/cockroachdb/pebble"
+//@ import bloom "github.com/cockroachdb/pebble/bloom"
+//@ trustframe "github.com/cockroachdb/pebble" "github.com/cockroachdb/pebble/bloom"
+//@ func split
+//@   ensures [C01.pebble.split+C02+C03] result == len(b)
+//@   modifies nothing
+//@ func DefaultOptions
+//@   maypanic
+//@   ensures [C04.pebble.nowal+C03] result != nil && result.DisableWAL
+//@   ensures [C01.pebble.comparer+C03+C12] result.Comparer != nil && result.Comparer.Compare == cpebble.DefaultComparer.Compare && result.Comparer.Equal == cpebble.DefaultComparer.Equal && result.Comparer.Split == split
+//@   modifies nothing
+//@   loop 0 invariant 0 <= l && l <= 7 && len(lvlOpts) == 7 && fresh(lvlOpts)
